@@ -13,6 +13,9 @@ fn attr_u128(c: &PuCtx, k: &str) -> Option<u128> {
 }
 
 pub fn oracle(c: &PuCtx, rec: &mut Rec) {
+    if c.post_malformed() {
+        return; // a pool lost part of its reserve list (C16 reports it); nothing here is defined on such a state
+    }
     match c.op {
         PuOp::Swap { u, offer, ask, recv, .. } if offer.len() == 1 => {
             if !c.out.is_ok() {
